@@ -320,6 +320,19 @@ func processItem(c *Ctx, st *injStats, pipe *pipeline.Pipe, ld *pipeline.Loader,
 				}
 			}
 		}
+		// ... and of every provider the declaration needs, also of those the generated code
+		// never calls (the comparison must stay a solver verdict, not a solver error)
+		refd := it.Prog.Evaluate(d)
+		for _, pr := range d.Provs {
+			if pr.Kind == corpus.KFunc || pr.Kind == corpus.KLiteral {
+				if _, ok := cp.Provs[pr.Sym()]; !ok && refd.Valid {
+					if _, needed := refd.Calls[pr.Sym()]; needed {
+						cp.Provs[pr.Sym()] = len(pr.Params)
+						cp.ExtraOuts = append(cp.ExtraOuts, symx.ExtraOut{Prov: pr.Sym(), Results: len(pr.Results), Arity: len(pr.Params)})
+					}
+				}
+			}
+		}
 		enc, err := conc.Build(cp)
 		dt := time.Since(t0).Nanoseconds()
 		st.mu.Lock()
